@@ -87,6 +87,18 @@ theorem register_builds_regular_option {key : Key} {ty : OptType} {rl rxi : Nat}
     RegOK o ∧ o.user = none ∧ o.key = key :=
   mkOpt_props h
 
+/-- The property's first sentence, at any moment: after any registration of options and any history of calls, a
+    getter of the right type returns the user value if set and enabled by the effective release level, else the
+    default-layer value, else the registered default. -/
+theorem getter_layering_at_any_moment (persist : Bool) (regs : List Opt) (ops : List Op)
+    (hregs : ∀ o ∈ regs, RegOK o ∧ o.user = none ∧ o.key ≠ rlKey) (hops : ∀ op ∈ ops, op.WF)
+    (k : Key) (fb : GVal) (o : Opt)
+    (hf : (run (regs.foldl register (init persist)) ops).find k = some o) (hty : fb.ty = o.ty) :
+    Config.get (run (regs.foldl register (init persist)) ops) k fb =
+      ((if o.rl ≤ effRL (run (regs.foldl register (init persist)) ops) then o.user else none).getD
+        (o.dflt.getD o.fallback)).proj fb.ty :=
+  getter_layering _ (wf_reachable persist regs ops hregs hops) k fb o hf hty
+
 /-! ### 3. Single-option set -/
 
 /-- `SetConfigOption` with a non-nil value either installs the canonical form of a valid value in the user layer of
